@@ -19,6 +19,7 @@ func init() {
 			"D5 the time predicates of shard-group selection, clipping, truncation and expiry are equal to their specification on every weak ordering of their operands (exhaustive truth tables); D6 the owner round-robin advances by one position per assigned replica. " +
 			"D7 the snapshot codec agrees with itself: every field transfer of marshal/unmarshal in services/meta has matching field and getter names. " +
 			"D8 clone completeness (shared with C07); D9 the membership scan in front of adding a requested owner is exhaustive; D10 a group is marked deleted exactly when the shard removed was its last. " +
+			"D5 also: the lookup of the live group for a timestamp scans every group (no early exit). " +
 			"NOT decided: disjointness and ID uniqueness after arbitrary command sequences, evenness of the owner spread as an arithmetic fact.",
 		RuleText:    "obligation = (rule, function/site); call-graph closure for D1; outcome dataflow + path exploration for D2; exhaustive evaluation of compiled predicates over all weak orderings for D5",
 		Assumptions: append([]string{"hashicorp/raft delivers the same log to every replica"}, commonAssumptions...),
